@@ -44,6 +44,7 @@ pub struct Style {
     pub reverse_attrs: bool,
     pub decl: bool,
     pub root_comment: bool,
+    pub after_root: Option<&'static str>, // Misc after the root element: comment, whitespace, PI
 }
 
 fn esc(s: &str) -> String {
@@ -146,6 +147,9 @@ pub fn render(root: &El, st: &Style) -> String {
     }
     let mut declared = vec![];
     write(root, None, st, 0, &mut out, &mut declared);
+    if let Some(m) = st.after_root {
+        out.push_str(m);
+    }
     out.push_str("]]>]]>");
     out.trim_start_matches('\n').to_string()
 }
@@ -172,6 +176,10 @@ pub fn variants(root: &El) -> Vec<(String, Style)> {
     v.push(("attr-order@*".into(), Style { reverse_attrs: true, ..Default::default() }));
     v.push(("xml-decl@*".into(), Style { decl: true, ..Default::default() }));
     v.push(("comment@root".into(), Style { root_comment: true, ..Default::default() }));
+    // XML `document ::= prolog element Misc*`: comments, white space (and PIs) may follow the root
+    v.push(("comment@after-root".into(), Style { after_root: Some("<!-- after root -->"), ..Default::default() }));
+    v.push(("comments@after-root".into(), Style { after_root: Some("\n<!-- a --><!-- b -->\n"), ..Default::default() }));
+    v.push(("whitespace@after-root".into(), Style { after_root: Some("\n  \n"), ..Default::default() }));
     let mut t = vec![];
     names(root, &|e| e.token, &mut t);
     for n in t {
